@@ -250,7 +250,12 @@ def main() -> int:
         "violations": len(violations),
     }
     (VERIF / "evidence").mkdir(exist_ok=True)
-    (VERIF / "evidence" / f"{prop}.json").write_text(json.dumps(ev, indent=1, default=str))
+    if args.skip_lean or args.replay:
+        # development / replay runs never overwrite the evidence of a full run
+        (VERIF / "evidence" / ".dev").mkdir(exist_ok=True)
+        (VERIF / "evidence" / ".dev" / f"{prop}.json").write_text(json.dumps(ev, indent=1, default=str))
+    else:
+        (VERIF / "evidence" / f"{prop}.json").write_text(json.dumps(ev, indent=1, default=str))
 
     for path, suffix in violations:
         print(f"VIOLATION property={prop} replay={path}{suffix}", flush=True)
